@@ -44,8 +44,9 @@ def check_node_link_graph(repo: Repo, rep: Report):
     all_methods = {c: repo.class_methods(rel, c) for c, rel in CLASSES.items()}
     ot = OrderType([["q1"], ["q2"]], [1], 2)
     n = 0
-    for data_directed in (None, True, False):
-        for arg_directed in (True, False):
+    for idkey in ("id", "name"):
+      for data_directed in ((None, True, False) if idkey == "id" else (None,)):
+        for arg_directed in ((True, False) if idkey == "id" else (False,)):
             n += 1
             want_cls = "DynDiGraph" if (data_directed if data_directed is not None else arg_directed) else "DynGraph"
 
@@ -54,8 +55,8 @@ def check_node_link_graph(repo: Repo, rep: Report):
                 w = JsonWorld(cfg, ot, ch, all_methods["DynGraph"], all_methods)
                 ip = CtorInterp(w, ot)
                 nodes = ListObj([
-                    DictObj({Const("id"): NodeV("N1"), Const("color"): Opaque("attr-value")}),
-                    DictObj({Const("id"): NodeV("N2")}),
+                    DictObj({Const(idkey): NodeV("N1"), Const("color"): Opaque("attr-value")}),
+                    DictObj({Const(idkey): NodeV("N2")}),
                     DictObj({Const("size"): Opaque("attr-value")}),          # no id: positional default
                 ])
                 links = ListObj([
@@ -65,13 +66,13 @@ def check_node_link_graph(repo: Repo, rep: Report):
                 data = DictObj({Const("graph"): Opaque("graph-attrs"), Const("nodes"): nodes, Const("links"): links})
                 if data_directed is not None:
                     data.entries[Const("directed")] = Const(data_directed)
-                attrs = DictObj({Const("id"): Const("id"), Const("source"): Const("source"), Const("target"): Const("target")})
+                attrs = DictObj({Const("id"): Const(idkey), Const("source"): Const("source"), Const("target"): Const("target")})
                 try:
                     return w, ip.call_function(fn, {"data": data, "directed": Const(arg_directed), "attrs": attrs}), None
                 except AbstractRaise as r:
                     return w, None, r
-            wit = "data['directed'] %s, argument directed=%s" % (
-                "absent" if data_directed is None else data_directed, arg_directed)
+            wit = "data['directed'] %s, argument directed=%s, attrs['id']=%r" % (
+                "absent" if data_directed is None else data_directed, arg_directed, idkey)
             for ch, (w, val, r) in run_all_choices(once, max_runs=64):
                 chs = ", ".join("%s=%s" % ("/".join(map(str, k)) if isinstance(k, tuple) else k, v) for k, v in ch.items())
                 wit2 = wit + ((" | " + chs) if chs else "")
